@@ -158,6 +158,9 @@ class Equation(object):
             is_a_term = False
         except NotImplementedError:
             is_a_term = False
+        except tokenize.TokenError:
+            # '(x)*(y)': the outer brackets do not belong together; what is left after removing them cannot be tokenized.
+            is_a_term = False
         if is_a_term:
             # Is a single term; no need to parse...
             return [t,]
